@@ -1,9 +1,9 @@
 (* Property C19 - case conversion: matched encoders and decoders are inverse;
    Go-identifier decoding splits names into exactly their words.
    This file contains statements only; proofs live in Text/*Proofs.v. *)
-From Coq Require Import List NArith.
+From Coq Require Import List NArith String.
 From Dials Require Import Base.Outcome Base.Runes Text.CaseConv Text.GoCamelSpec
-  Text.CaseConvProofs Text.GoCamelProofs Text.GoCamelFacts Text.CaseTitle Text.CaseTitleProofs.
+  Text.CaseConvProofs Text.GoCamelProofs Text.GoCamelFacts Text.CaseTitle Text.CaseTitleProofs Text.CaseInjective.
 Import ListNotations.
 
 (* lword w : w matches [a-z][a-z0-9]*.  An identifier has at least one word;
@@ -57,6 +57,35 @@ Proof. exact go_camel_splits_l. Qed.
 Theorem extract_initialisms_terminates : forall s, extract_initialisms s <> None.
 Proof. exact extract_total. Qed.
 
+(* Consequences users rely on (Text/CaseInjective.v).  No two distinct word lists
+   share a name in any of the six cases: two configuration leaves whose word
+   lists differ can never collide on an environment variable, flag or file key
+   because of the case conversion. *)
+Theorem encoders_injective : forall enc, In enc six_encoders ->
+  forall ws1 ws2, Forall lword ws1 -> ws1 <> [] -> Forall lword ws2 -> ws2 <> [] ->
+  enc ws1 = enc ws2 -> ws1 = ws2.
+Proof. exact six_encoders_injective_l. Qed.
+
+(* Re-casing (what tagformat.ReformatDialsTagSource does: decode the tag in one
+   case, encode it in another) loses nothing: reading the re-cased name back with
+   the matching decoder gives the words of the original name.  Stated for the
+   pair the shipped sources use (lowerCamel tags re-cased to UPPER_SNAKE for the
+   environment, to kebab for flags). *)
+Theorem recase_lower_camel_to_upper_snake : forall ws, Forall lword ws -> ws <> [] ->
+  match decode_lower_camel (encode_lower_camel ws) with
+  | Ok ws' => decode_upper_snake (encode_upper_snake ws') | Err e => Err e | Panic p => Panic p end = Ok ws.
+Proof. exact (recase_lossless _ _ decode_encode_lower_camel_l _ _ decode_encode_upper_snake_l). Qed.
+
+Theorem recase_lower_camel_to_kebab : forall ws, Forall lword ws -> ws <> [] ->
+  match decode_lower_camel (encode_lower_camel ws) with
+  | Ok ws' => decode_kebab (encode_kebab ws') | Err e => Err e | Panic p => Panic p end = Ok ws.
+Proof. exact (recase_lossless _ _ decode_encode_lower_camel_l _ _ decode_encode_kebab_l). Qed.
+
+(* non-vacuity: the hypotheses are met by a concrete two-word name *)
+Example lwords_exist : Forall lword [s2r "max"%string; s2r "conns2"%string]
+  /\ [s2r "max"%string; s2r "conns2"%string] <> ([] : words).
+Proof. split; [repeat constructor | discriminate]. Qed.
+
 Print Assumptions decode_encode_upper_camel.
 Print Assumptions decode_encode_lower_camel.
 Print Assumptions decode_encode_lower_snake.
@@ -66,3 +95,6 @@ Print Assumptions decode_encode_cp_snake.
 Print Assumptions camel_encoders_faithful_on_words.
 Print Assumptions go_camel_splits.
 Print Assumptions extract_initialisms_terminates.
+Print Assumptions encoders_injective.
+Print Assumptions recase_lower_camel_to_upper_snake.
+Print Assumptions recase_lower_camel_to_kebab.
